@@ -899,6 +899,34 @@ def array(*, dims, values=None, variances=None, unit=_DEFAULT, dtype=None):
     raise Unsupported('sc.array from concrete values')
 
 
+def round_(x, *, out=None):
+    """Assumed contract of sc.round: an integer-valued result within 1/2 of the argument (ties: either neighbour)."""
+    f = getattr(x, 'vf_round', None)
+    if f is not None:
+        return f()
+    _need_float(x, 'round')
+    n = core.fresh_int('round')
+    core.assume(z3.And(x.val - z3.ToReal(n) <= tz(Fr(1, 2)), z3.ToReal(n) - x.val <= tz(Fr(1, 2))))
+    ctx().log.append(('round', x.val, n))
+    return _out(x._new(z3.ToReal(n), x.unit, x.dtype, None, x.buf.nan, x.buf.defd, None), out)
+
+
+def _dispatch(name):
+    def f(x, *a, **k):
+        m = getattr(x[0] if isinstance(x, (list, tuple)) and x else x, f'vf_{name}', None)
+        if isinstance(x, (list, tuple)):
+            for e in x:
+                m = getattr(e, f'vf_{name}', None)
+                if m is not None:
+                    return m(x, *a, **k)
+            if name == 'concat':
+                return concat(x, *a, **k)
+        if m is None:
+            raise Unsupported(f'sc.{name} on {type(x).__name__}')
+        return m(*a, **k)
+    return f
+
+
 def index(value, dtype=None):
     return scalar(value, unit=None, dtype=dtype)
 
@@ -1269,7 +1297,8 @@ def build_modules():
         units=units, constants=const, typing=typing_, spatial=spatial,
         scalar=scalar, vector=vector, index=index, to_unit=to_unit, sqrt=sqrt, reciprocal=reciprocal,
         sin=sin, cos=cos, atan2=atan2, asin=asin, acos=acos, exp=exp, log=log, norm=norm, dot=dot, cross=cross,
-        values=values, variances=variances, array=array, full=full, concat=concat, vectors=vectors, where=where, any=any_, all=all_, max=max_, min=min_, abs=abs_, isnan=isnan, identical=identical,
+        values=values, variances=variances, array=array, full=full, concat=_dispatch('concat'), cumsum=_dispatch('cumsum'),
+        issorted=_dispatch('issorted'), mean=_dispatch('mean'), arange=lambda *a, **k: ('arange', a, tuple(sorted(k.items()))), round=round_, vectors=vectors, where=where, any=any_, all=all_, max=max_, min=min_, abs=abs_, isnan=isnan, identical=identical,
     ).items():
         setattr(sc, k, v)
     return {'scipp': sc, 'scipp.units': units, 'scipp.constants': const, 'scipp.typing': typing_,
